@@ -201,8 +201,18 @@ impl Axecutor {
 
                     // The area ends at the end of the segment's last page, so that a segment with an
                     // unaligned start address doesn't spill into the page after it
-                    let memsz = round_up_to_page_size(segment.p_vaddr + segment.p_memsz)
-                        - segment.p_vaddr;
+                    let segment_end = segment
+                        .p_vaddr
+                        .checked_add(segment.p_memsz)
+                        .and_then(|end| end.checked_add(0xfff))
+                        .ok_or_else(|| {
+                            AxError::from(format!(
+                                "ELF: segment at {:#x} with a memory size of {:#x} bytes does not fit into the address space",
+                                segment.p_vaddr, segment.p_memsz
+                            ))
+                        })?
+                        - 0xfff;
+                    let memsz = round_up_to_page_size(segment_end) - segment.p_vaddr;
 
                     if memsz == segment.p_filesz {
                         axecutor.mem_init_area_named(
